@@ -128,6 +128,7 @@ func (e *exec) sweepDir(src string, exp *expect, where string) {
 			sub.recs = append(sub.recs, s)
 		}
 	}
+	sub.inflight = exp.inflight // a chunk as large as the write buffer is written through before its WriteChunk call returns
 	sub.index()
 	exp = sub
 	e.mu.Lock()
